@@ -243,8 +243,11 @@ class AutomaticRegistrationService(BytesInterface, LoggingTrait):
             if isinstance(first_header, FirstHeader)
             else FirstHeader.from_bytes(first_header)
         )
+        # second header is interpreted (refresh time / failure reason) in context of the first one
         self.response_second_header: Optional[ResponseSecondHeader] = (
-            response_second_header
+            response_second_header.context(self.header)
+            if response_second_header
+            else response_second_header
         )
         self.registration_request_header: Optional[RegistrationRequestHeader] = (
             registration_request_header
@@ -404,8 +407,6 @@ class AutomaticRegistrationService(BytesInterface, LoggingTrait):
             elif self.header.pdu_type == ARSPDUType.ARS_DEVICE_OR_QUERY_RESPONSE:
                 repre += f"[{'FAILURE' if self.header.is_acknowledged else 'SUCCESS'}] "
                 if self.header.has_more_headers and self.response_second_header:
-                    repre += (
-                        repr(self.response_second_header.context(self.header)) + " "
-                    )
+                    repre += repr(self.response_second_header) + " "
 
         return repre
